@@ -310,12 +310,18 @@ impl<'e> EventLoop<'e> {
                 }
                 // resolve completed read/write tasks
                 let result = c_longlong::from(cqe.result());
+                #[cfg(open_coroutine_verif)]
+                let verif_found = self.syscall_wait_table.contains_key(&token);
                 if let Some((_, pair)) = self.syscall_wait_table.remove(&token) {
                     let (lock, cvar) = &*pair;
                     let mut pending = lock.lock().expect("lock failed");
                     *pending = Some(result);
                     cvar.notify_one();
                 }
+                #[cfg(open_coroutine_verif)]
+                crate::common::verif::emit(|| {
+                    format!(r#""ev":"cqe","token":{token},"res":{result},"found":{verif_found}"#)
+                });
                 unsafe { self.resume(token) };
             }
             if left != left_time {
@@ -521,6 +527,8 @@ macro_rules! impl_io_uring {
                     self.syscall_wait_table.insert(token, arc.clone()).is_none(),
                     "The previous token was not retrieved in a timely manner"
                 );
+                #[cfg(open_coroutine_verif)]
+                crate::common::verif::pause("operator_between_slot_and_submit");
                 if let Err(e) = self.operator.$syscall(token, $($arg, )*) {
                     _ = self.syscall_wait_table.remove(&token);
                     return Err(e);
@@ -574,6 +582,8 @@ macro_rules! impl_iocp {
                     self.syscall_wait_table.insert(token, arc.clone()).is_none(),
                     "The previous token was not retrieved in a timely manner"
                 );
+                #[cfg(open_coroutine_verif)]
+                crate::common::verif::pause("operator_between_slot_and_submit");
                 if let Err(e) = self.operator.$syscall(token, $($arg, )*) {
                     _ = self.syscall_wait_table.remove(&token);
                     return Err(e);
